@@ -653,3 +653,6 @@ def run_case(c):
           "sample": {"case": {k: v for k, v in c.items() if not k.startswith("_")}, "alphabet_size": r["n"],
                      "rng_calls_per_execution": r["maxcalls"], "executions": r["execs"],
                      "choice_tree_exhausted": r["exhaustive"]}}
+
+# (appended: sub-lattices added after the seeded waves; kept out of the original RULE text for readability)
+RULE = RULE + '; plus: wide-exponent po2 formats on tiny inputs (float32 neighbours just below powers of two); a call that requests fewer random tensors than the format has roundings is a violation; phase histories (train/infer, infer/train, train/infer/train) on ONE quantizer object with draws below / above every threshold'
